@@ -59,6 +59,8 @@ def run(ctx):
     c03.rule_flag(ctx, F)   # representation independence needs a truthful `compressed` flag (as_flat_slice fast paths)
     import c02
     c02.rule_seqeq(ctx, F)  # label sequences of different lengths are never equal (zip() stops at the shorter one)
+    import c19
+    c19.rule_lsuffix(ctx, F)  # the new codec's flat names: order by length only for a label-aligned suffix
 
 
 # ---------------------------------------------------------------------------
